@@ -3,7 +3,7 @@
    Print Assumptions.  Vocabulary: Spec/DateSpec.v (tiles, within_unit, units_change, lastn,
    align_spec, is_partition_b).  Model: Model/Date.v (new_partition, align).               *)
 From Coq Require Import ZArith List Bool.
-From Knut Require Import Model.Date Spec.DateSpec Proofs.DateProofs.
+From Knut Require Import Model.Date Spec.DateSpec Proofs.DateProofs Proofs.ClipProofs.
 Import ListNotations.
 Open Scope Z_scope.
 
@@ -80,6 +80,24 @@ Theorem C11_model_meets_spec : forall s e iv n pt,
   0 <= n -> new_partition (mkPeriod s e) iv n = POk pt -> is_partition_b s e iv n (periods pt) = true.
 Proof. exact model_meets_spec. Qed.
 Print Assumptions C11_model_meets_spec.
+
+(* The window that is partitioned is the requested period clipped to the journal's period
+   (cmd/flags Multiperiod.Partition): Clip is the intersection -- a date lies in the clipped window iff it lies
+   in both periods -- for ANY two periods, inverted ones included; when they do not meet, the clipped window
+   contains no date (and by C11_partition has no periods, or the single empty period of `once`). *)
+Theorem C11_clip_intersection : forall w j d,
+  period_contains (clip w j) d = period_contains w d && period_contains j d.
+Proof. exact clip_contains. Qed.
+Print Assumptions C11_clip_intersection.
+
+Theorem C11_clip_empty : forall w j d,
+  Z.min (p_end w) (p_end j) < Z.max (p_start w) (p_start j) -> period_contains (clip w j) d = false.
+Proof. exact clip_empty. Qed.
+Print Assumptions C11_clip_empty.
+
+Theorem C11_clip_meets_spec : forall w j, clip_ok_b w j (clip w j) = true.
+Proof. exact clip_meets_spec. Qed.
+Print Assumptions C11_clip_meets_spec.
 
 (* the one input on which the Go code panics (zero time as window start) *)
 Theorem C11_zero_start_panics : forall e iv n, new_partition (mkPeriod 0 e) iv n = PPanic.
